@@ -232,7 +232,7 @@ func runWorld(s *stats, w *world, regions []string) error {
 }
 
 func randomPhase(r *ev.Run, workers int, total *stats, mu *sync.Mutex) {
-	worlds := r.Pick(6000, 25000)
+	worlds := r.Pick(6000, 18000)
 	perWorld := 16
 	var wg sync.WaitGroup
 	var fatal sync.Once
